@@ -207,45 +207,61 @@ func CheckIso[S, T any](ic IsoCase[S, T]) {
 	// lists of isos: each single one, all, with nil entries, with repeats, reversed, empty
 	type pick struct {
 		name string
-		idx  []int // -1 = nil entry
+		idx  []int   // -1 = nil entry; -2-k = the k-th nested morphism of `nested`
+		nest [][]int // nested morphisms (lists of iso indices), referenced from idx
 	}
-	picks := []pick{{"empty", nil}, {"nil only", []int{-1, -1}}}
+	picks := []pick{{name: "empty"}, {name: "nil only", idx: []int{-1, -1}}}
 	all := Iota(n)
 	for i := 0; i < n; i++ {
-		picks = append(picks, pick{fmt.Sprintf("single %d", i), []int{i}})
+		picks = append(picks, pick{name: fmt.Sprintf("single %d", i), idx: []int{i}})
 	}
-	picks = append(picks, pick{"all", all})
+	picks = append(picks, pick{name: "all", idx: all})
 	withNil := []int{-1}
 	for _, i := range all {
 		withNil = append(withNil, i, -1)
 	}
-	picks = append(picks, pick{"all with nil entries", withNil})
+	picks = append(picks, pick{name: "all with nil entries", idx: withNil})
 	rev := []int{}
 	for i := n - 1; i >= 0; i-- {
 		rev = append(rev, i, i)
 	}
-	picks = append(picks, pick{"reversed with repeats", rev})
+	picks = append(picks, pick{name: "reversed with repeats", idx: rev})
 	if n > 1 {
-		picks = append(picks, pick{"first and last", []int{0, -1, n - 1, 0}})
+		picks = append(picks, pick{name: "first and last", idx: []int{0, -1, n - 1, 0}})
+		// morphisms nested inside morphisms, at the front, in the middle, at the end, next to nil entries
+		picks = append(picks, pick{name: "nested first", idx: []int{-2, n - 1}, nest: [][]int{{0, 1 % n}}})
+		picks = append(picks, pick{name: "nested first then nil and more", idx: append([]int{-2, -1}, all...), nest: [][]int{{0, 1 % n}}})
+		picks = append(picks, pick{name: "nested middle", idx: []int{n - 1, -2, 0}, nest: [][]int{all}})
+		picks = append(picks, pick{name: "nested last", idx: []int{0, -2}, nest: [][]int{{n - 1, 0}}})
+		picks = append(picks, pick{name: "two nested", idx: []int{-2, -3}, nest: [][]int{{0}, all}})
+		picks = append(picks, pick{name: "nested in nested", idx: []int{-2, n - 1}, nest: [][]int{{-2, 0}}})
 	}
 	for pi, pk := range picks {
 		var iso optics.Isomorphism[S, T]
-		if len(pk.idx) == 1 && pk.idx[0] >= 0 {
-			iso = ic.Isos[pk.idx[0]] // a bare Iso, not wrapped in a Morphism
-		} else {
-			list := make([]optics.Isomorphism[S, T], len(pk.idx))
-			for i, x := range pk.idx {
-				if x >= 0 {
+		in := map[int]bool{}
+		var mk func(idx []int, depth int) optics.Isomorphism[S, T]
+		mk = func(idx []int, depth int) optics.Isomorphism[S, T] {
+			list := make([]optics.Isomorphism[S, T], len(idx))
+			for i, x := range idx {
+				switch {
+				case x >= 0:
 					list[i] = ic.Isos[x]
+					in[x] = true
+				case x <= -2 && depth < 3:
+					sub := pk.nest[(-2-x)%len(pk.nest)]
+					if depth > 0 { // the innermost level is a plain list
+						sub = []int{0}
+					}
+					list[i] = mk(sub, depth+1)
 				}
 			}
-			iso = ic.Morph(list...)
+			return ic.Morph(list...)
 		}
-		in := map[int]bool{}
-		for _, x := range pk.idx {
-			if x >= 0 {
-				in[x] = true
-			}
+		if len(pk.idx) == 1 && pk.idx[0] >= 0 {
+			iso = ic.Isos[pk.idx[0]] // a bare Iso, not wrapped in a Morphism
+			in[pk.idx[0]] = true
+		} else {
+			iso = mk(pk.idx, 0)
 		}
 		for k := 0; k < 3; k++ {
 			gs, gt := newGuard[S](k), newGuard[T](k+1)
